@@ -680,6 +680,23 @@ func runC12(c *gen.Ctx) error {
 		c.E.Count("kind:timeout-random")
 	}
 
+	// matrix and checks ops are independent of each other: run them on 8 workers, in batches (the
+	// lines are emitted in the order they were generated)
+	var parOps []string
+	var parIns []any
+	flush := func() {
+		if len(parIns) > 0 {
+			c.DoParallelOps(parOps, parIns, 8)
+			parOps, parIns = nil, nil
+		}
+	}
+	par := func(op string, in any) {
+		parOps, parIns = append(parOps, op), append(parIns, in)
+		if len(parIns) >= 20000 {
+			flush()
+		}
+	}
+
 	// ---------------- expectation-header checks
 	// (i.a) the renderer itself: every expected tuple, every actual tuple x variant
 	for i := 0; i < 864; i++ {
@@ -707,7 +724,7 @@ func runC12(c *gen.Ctx) error {
 			if in.A[1] == 1 && (ei+ai)%3 == 0 {
 				in.Body = 3
 			}
-			c.Do("matrix", in)
+			par("matrix", in)
 			if c12Realisable(in.A) {
 				c.E.Count("kind:matrix-realisable")
 			} else {
@@ -721,17 +738,17 @@ func runC12(c *gen.Ctx) error {
 			vv := [3]int{v & 1, (v >> 1) & 1, (v >> 2) & 1}
 			// the diagonal in both configurations of the chain; a GET also with an empty body that
 			// is not http.NoBody
-			c.Do("matrix", c12MatrixIn{E: a, A: a, V: vv, Name: "Suite/same"})
-			c.Do("matrix", c12MatrixIn{E: a, A: a, V: vv, Name: "Suite/same", Traced: true})
+			par("matrix", c12MatrixIn{E: a, A: a, V: vv, Name: "Suite/same"})
+			par("matrix", c12MatrixIn{E: a, A: a, V: vv, Name: "Suite/same", Traced: true})
 			c.E.Count("kind:matrix-diagonal-traced")
 			if a[1] == 1 {
-				c.Do("matrix", c12MatrixIn{E: a, A: a, V: vv, Name: "Suite/same", Traced: v%2 == 0, Body: 3})
+				par("matrix", c12MatrixIn{E: a, A: a, V: vv, Name: "Suite/same", Traced: v%2 == 0, Body: 3})
 			}
 			for k := 0; k < 7; k++ {
 				for d := 1; d < c12Dims[k]; d++ {
 					e := a
 					e[k] = (a[k] + d) % c12Dims[k]
-					c.Do("matrix", c12MatrixIn{E: e, A: a, V: vv, Name: "Suite/one-off", Traced: (ai+v+k+d)%2 == 0})
+					par("matrix", c12MatrixIn{E: e, A: a, V: vv, Name: "Suite/one-off", Traced: (ai+v+k+d)%2 == 0})
 					c.E.Count("kind:matrix-single-deviation")
 				}
 			}
@@ -766,7 +783,7 @@ func runC12(c *gen.Ctx) error {
 			c12Perturb(r, &req, badVals)
 			reqs = append(reqs, req)
 		}
-		c.Do("checks", c12ChecksIn{Reqs: reqs, Traced: i%2 == 1})
+		par("checks", c12ChecksIn{Reqs: reqs, Traced: i%2 == 1})
 		c.E.Count("kind:checks-sequence")
 	}
 	// (i.d) the same sequences with the printer of the real process (internal.NewPrinter around
@@ -803,9 +820,10 @@ func runC12(c *gen.Ctx) error {
 			}
 			reqs = append(reqs, req)
 		}
-		c.Do("checks", c12ChecksIn{Reqs: reqs, Stderr: true, Traced: i%2 == 1})
+		par("checks", c12ChecksIn{Reqs: reqs, Stderr: true, Traced: i%2 == 1})
 		c.E.Count("kind:checks-sequence-stderr")
 	}
+	flush()
 	// (i.e) overlapping requests on one handler instance, and whole stderr streams with lines of
 	// any length read by the real runner (c12overlap.go)
 	c12OverlapGen(c)
